@@ -550,9 +550,9 @@ func cmdCheck(args []string) int {
 					os.WriteFile(r.path, b, 0o644)
 					runs := 1
 					if r.kind == "finding" && r.or.ob.Replay == "stress" {
-						runs = 300
+						runs = 1000
 					}
-					deadline := time.Now().Add(90 * time.Second)
+					deadline := time.Now().Add(180 * time.Second)
 					var outs []string
 					for k := 0; k < runs; k++ {
 						tmo := 60 * time.Second
